@@ -462,6 +462,12 @@ pub fn run_inputs(opts: &Opts, only: Option<Vec<Vec<u8>>>) -> Run {
         let reference = gen::zstd_decode(bytes, None, 400 << 20);
         // "a block whose contents would regenerate more than 128 KiB is rejected as corrupt instead of being expanded":
         // a frame that structurally announces such a block must not decode successfully through any entry point
+        if label.contains("oversize-block:") {
+            run.oracle_checks += 1;
+            if let Some(o) = outs.iter().find(|o| o.output.is_some() && o.err.is_none() && o.panic.is_none()) {
+                run.fail("C05", "oversized_block_accepted", format!("[{}] {} succeeded ({} bytes out) on a frame with a block that regenerates more than 128 KiB", label, o.what, o.output.as_ref().map(|v| v.len()).unwrap_or(0)), replay.clone());
+            }
+        }
         if let Some(why) = oversize_block(bytes) {
             run.oracle_checks += 1;
             run.stat("frames_with_oversize_block", 1);
@@ -856,6 +862,15 @@ pub fn directed_hostile() -> Vec<(Vec<u8>, String)> {
             v.push((b, label.to_string()));
         }
     }
+    // blocks that regenerate more than 128 KiB only through the TRAILING literals (the literals section itself is at most
+    // 128 KiB, every sequence on its own fits): 128 KiB of RLE literals, one sequence (10 literals, match of ml), the rest behind it
+    for (ml_extra, label) in [(27_229u32, 60_000usize), (0, 32_771), (1, 32_772)] {
+        let blk = synth::SeqBlock { lits: synth::Lit::Rle(7, 131_072), ll_code: 10, ml_code: 51, of_code: 2, seqs: vec![(0, ml_extra, 0)], count_bytes: None, modes: None, repeat: [false; 3], trailer: vec![] };
+        let f = synth::Frame::simple(vec![synth::Block::Raw(vec![1, 2, 3, 4]), synth::Block::Comp(blk)], 0x38, false);
+        let (b, _) = synth::serialize(&f, &[]);
+        v.push((b, format!("oversize-block: 131072 literals + one match of {} (trailing literals push the block over 128 KiB)", label)));
+    }
+    // … and exactly at the limit through the trailing literals (valid: 131072 - 3 literals, one match of 3)
     // Huffman weight descriptions whose FSE table has ZERO-BIT states (one symbol with the whole probability: the two-state
     // weight loop consumes no bits and is only bounded by the weight count), one and four streams, also behind a good table
     for desc in [vec![0x04u8, 0xF0, 0x03, 0x00, 0x80], vec![0x03, 0xF0, 0x03, 0x80], vec![0x05, 0xF0, 0x03, 0x00, 0x00, 0x80], vec![0x04, 0xF1, 0x07, 0x00, 0x80]] {
